@@ -263,10 +263,17 @@ func (e *Enc) onStack(fr *Frame, fn *ssa.Function) bool {
 	return false
 }
 
+func (e *Enc) pkgPath() string {
+	if e.pkg != nil && e.pkg.Pkg != nil {
+		return e.pkg.Pkg.PkgPath
+	}
+	return ""
+}
+
 func (e *Enc) dispatch(fr *Frame, cs *callSite) Val {
 	if cs.static != nil {
 		fn := cs.static
-		fc := e.eng.contracts[cs.key]
+		fc := e.eng.contractAt(e.pkgPath(), cs.key)
 		hasBody := len(fn.Blocks) > 0
 		if fc != nil && !(fc.Inline && hasBody) {
 			return e.contractCall(fr, cs, fc)
@@ -282,7 +289,7 @@ func (e *Enc) dispatch(fr *Frame, cs *callSite) Val {
 		return e.opaqueCallCS(fr, cs, "no body")
 	}
 	if cs.invoke {
-		if fc := e.eng.contracts[cs.key]; fc != nil {
+		if fc := e.eng.contractAt(e.pkgPath(), cs.key); fc != nil {
 			return e.contractCall(fr, cs, fc)
 		}
 		// statically known dynamic type: devirtualise
@@ -594,6 +601,24 @@ func (e *Enc) havocLvalue(ctx *ExprCtx, st *State, m Clause) {
 			pt := under(base.Typ).(*types.Pointer)
 			a := e.asPtr(base.V, base.Typ).A
 			e.store(st, a, pt.Elem(), e.fresh(pt.Elem(), "mod:deref"))
+			return
+		}
+	case CCall:
+		// map(m): the contents (entries, length) of the map object m refers to
+		if id, ok := x.Fun.(CIdent); ok && id.Name == "mapof" && len(x.Args) == 1 {
+			mv := ctx.expr(x.Args[0])
+			if _, isMap := under(mv.Typ).(*types.Map); !isMap {
+				panic("modifies mapof(x): x is not a map in " + m.Text)
+			}
+			ref := e.scalar(mv.V)
+			tk := typeKey(mv.Typ)
+			for _, k := range sortedKeys(e.keySorts) {
+				if k == "md:"+tk || k == "ml:"+tk || k == "mv:"+tk || strings.HasPrefix(k, "mv:"+tk+".") {
+					arr := e.get(st, k, e.keySorts[k])
+					e.noteWrite(k)
+					st.m[k] = e.s.Define("st:"+k, Store(arr, ref, e.s.Const("mod:map", arrElemSort(e.keySorts[k]))))
+				}
+			}
 			return
 		}
 	case CIdent:
@@ -1049,6 +1074,21 @@ func (e *Enc) appendBuiltin(fr *Frame, instr ssa.Instruction, c *ssa.CallCommon)
 		srt := arrSort(SInt, arrSort(SInt, lf.sort))
 		arr := e.get(st, key, srt)
 		content := Select(arr, s.Base)
+		if s.FromCell != nil {
+			// the first operand is a slice of a local array (e.g. []T{x}): its elements live in
+			// the cell, not in the element heap
+			if n, ok := litValue(s.Len); ok && n.IsInt64() && n.Int64() <= 8 {
+				if off, ok2 := litValue(s.Off); ok2 {
+					ck := fmt.Sprintf("c:%d%s%s", s.FromCell.ID, s.CellPath, lf.path)
+					if carr, ok3 := st.m[ck]; ok3 {
+						content = e.s.Const("appfirst", arrSort(SInt, lf.sort))
+						for i := int64(0); i < n.Int64(); i++ {
+							content = Store(content, IntLit(off.Int64()+i), Select(carr, IntLit(off.Int64()+i)))
+						}
+					}
+				}
+			}
+		}
 		known := false
 		if isSlice && tv.FromCell != nil {
 			if n, ok := litValue(tv.Len); ok && n.IsInt64() && n.Int64() <= 8 {
